@@ -97,7 +97,7 @@ Example C09_bytes_example :
   exists ks, lex_main data = Some ks /\ simple ks = true /\ hazard_free ks = true /\
              format_bytes glen data
              = Some [120;32;61;32;97;46;48;46;101;53;32;45;32;45;49;32;35;32;99;10;121;32;61;32;91;49;44;32;50;93;10].
-Proof. eexists. repeat split; vm_compute; reflexivity. Qed.
+Proof. eexists. split; [vm_compute; reflexivity|]. split; [vm_compute; reflexivity|]. split; vm_compute; reflexivity. Qed.
 
 (* Byte level, every source that lexes cleanly and contains no heredoc — quoted templates
    with "$"/"%" chunks, "$${"/"%%{" escapes and ${ … } / %{ … } sequences (nested to any
@@ -142,4 +142,51 @@ Example C09_bytes_example_quoted :
   let data := [120;32;61;32;34;97;36;123;32;98;32;125;99;37;123;32;105;102;32;100;32;125;36;36;123;101;125;32;49;48;48;37;37;123;37;123;32;101;110;100;105;102;32;125;34;10;
                121;61;34;36;123;32;123;97;61;49;125;32;125;36;34;10] in
   exists ks, lex_main data = Some ks /\ noheredoc ks = true /\ hazard_free ks = true /\ simple ks = false.
-Proof. eexists. repeat split; vm_compute; reflexivity. Qed.
+Proof. eexists. split; [vm_compute; reflexivity|]. split; [vm_compute; reflexivity|]. split; vm_compute; reflexivity. Qed.
+
+(* Byte level, EVERY source that lexes cleanly (no Invalid/BadUTF8/… token; quoted templates,
+   template sequences nested to any depth and heredocs included) and contains none of the
+   hazard patterns of FormatBytes.hazard_free: scanning the bytes written for the formatted
+   tokens gives back exactly the formatted writer tokens. *)
+Theorem C09_bytes_relex_exact :
+  forall (g : list Z -> Z) (data : list Z) (ks : list rtok),
+    lex_main data = Some ks -> lexes_clean ks = true -> hazard_free ks = true ->
+    exists ks', lex_main (write (format (writer_tokens g 0 ks))) = Some ks' /\
+                writer_tokens g 0 ks' = format (writer_tokens g 0 ks).
+Proof. exact relex_exact_hazard_free. Qed.
+Print Assumptions C09_bytes_relex_exact.
+
+Theorem C09_bytes_same_tokens :
+  forall g data ks,
+    lex_main data = Some ks -> lexes_clean ks = true -> hazard_free ks = true ->
+    exists ks', lex_main (write (format (writer_tokens g 0 ks))) = Some ks' /\ map rtyb ks' = map rtyb ks.
+Proof. exact relex_stable_hazard_free. Qed.
+Print Assumptions C09_bytes_same_tokens.
+
+Theorem C09_bytes_idempotent :
+  forall g data ks out,
+    lex_main data = Some ks -> lexes_clean ks = true -> hazard_free ks = true ->
+    format_bytes g data = Some out -> format_bytes g out = Some out.
+Proof. exact bytes_idempotent_hazard_free. Qed.
+Print Assumptions C09_bytes_idempotent.
+
+(* hazard patterns allowed: the local layout check on the formatted list suffices *)
+Theorem C09_bytes_relex_exact_of_layout_clean :
+  forall g data ks,
+    lex_main data = Some ks -> lexes_clean ks = true ->
+    layout_okb (format (writer_tokens g 0 ks)) = true ->
+    exists ks', lex_main (write (format (writer_tokens g 0 ks))) = Some ks' /\
+                writer_tokens g 0 ks' = format (writer_tokens g 0 ks).
+Proof. exact relex_exact_clean. Qed.
+Print Assumptions C09_bytes_relex_exact_of_layout_clean.
+
+Check relex_exact_quoted. Check relex_stable_quoted. Check bytes_idempotent_quoted. Check relex_exact_nohd.
+Check relex_exact_simple. Check relex_stable_simple. Check bytes_idempotent_simple. Check relex_exact_main.
+Check relex_stable_refuted.
+
+(* Non-vacuity: x = <<-EOT (nl)   a ${ b } $$ {c} %%{ d(nl)   $x(nl)   EOT(nl) y = [<<E(nl)E(nl),"q${1}"](nl) *)
+Example C09_bytes_example_heredoc :
+  let data := [120;32;61;32;60;60;45;69;79;84;10;32;32;97;32;36;123;32;98;32;125;32;36;36;32;123;99;125;32;37;37;123;32;100;10;
+               32;32;36;120;10;32;32;69;79;84;10;121;32;61;32;91;60;60;69;10;69;10;44;34;113;36;123;49;125;34;93;10] in
+  exists ks, lex_main data = Some ks /\ lexes_clean ks = true /\ hazard_free ks = true /\ noheredoc ks = false.
+Proof. eexists. split; [vm_compute; reflexivity|]. split; [vm_compute; reflexivity|]. split; vm_compute; reflexivity. Qed.
